@@ -345,7 +345,9 @@ ORACLES = {
             _oracle('the same, result cache off', 100, 1500, kind='rdrtree', nvars=2, n=3, overridden=True, caching=False)],
     'C14': [_oracle('registry histories: concrete / symbolic construction, clearing, no-domain queries', 300, 4000, kind='registry'),
             _oracle('registry histories without clearing, 16 steps', 100, 2000, kind='registry', clear=False, steps=16)],
-    'C13': [_oracle('predicate form vs explicit query, mixed-type domains, positional and keyword fields', 250, 4000, kind='predform', allow_empty=True)],
+    'C13': [_oracle('predicate form vs explicit query, mixed-type domains, positional and keyword fields', 250, 4000, kind='predform', allow_empty=True),
+            _oracle('ONE From(d) object handed to two terms of different types (joined); the From object still holds d afterwards', 120,
+                    2000, kind='predform_shared')],
     'C04': [_oracle('histories of full / partial / aborted evaluations (result cache on)', 200, 3000, kind='history'),
             _oracle('histories (result cache off)', 100, 1500, kind='history', caching=False),
             _oracle('histories over a domain that lists an object twice', 100, 1500, kind='history', duplicates=True),
